@@ -8,11 +8,12 @@ reasons = {}
 rp = os.path.join(V, "props", "not_applicable.json")
 if os.path.exists(rp):
     reasons = json.load(open(rp))
+integ = set(open(os.path.join(V, "props", "integrated.txt")).read().split())
 for p in props:
     pid = p["id"]
     mp = os.path.join(V, "props", pid, "meta.json")
     cp = os.path.join(V, "props", pid, "check.py")
-    if os.path.exists(mp) and os.path.exists(cp):
+    if pid in integ and os.path.exists(mp) and os.path.exists(cp):
         m = json.load(open(mp))
         checks.append({
             "property_id": pid,
